@@ -4,9 +4,10 @@
    A [ty] is what structEncodeFuncOf/structDecodeFuncOf select for ONE api version
    (the translator harness/cmd/vgen does the version selection from the struct
    tags); [flex] is the message's "flexible" flag.  Go run-time failures are explicit
-   outcomes: Panic (slice bounds, negative make), Oom (allocation above the memory
-   budget), Hang (a loop whose trip count comes from the wire spinning after an
-   error), never totalised away. *)
+   outcomes: Panic (negative or out-of-range make), Oom (allocation above the memory
+   budget), never totalised away.  (Before the repair recorded as F8 in
+   known_findings.json the decoder could also slice with a negative bound and spin
+   in wire-counted loops after an error; the model follows the repaired code.) *)
 From Coq Require Import List NArith ZArith Bool.
 From KV Require Import Lib.Bits Lib.Bytes Lib.Varint.
 Import ListNotations.
@@ -153,19 +154,18 @@ Inductive res (A : Type) : Type :=
 | Err (e : derr) (remain_after : Z) (alloc : N)
 | Panic
 | Oom
-| Hang
 | OutOfFuel.
 Arguments Ok {A}. Arguments Err {A}. Arguments Panic {A}. Arguments Oom {A}.
-Arguments Hang {A}. Arguments OutOfFuel {A}.
+Arguments OutOfFuel {A}.
 
 Definition bind {A B} (r : res A) (f : A -> dstate -> res B) : res B :=
   match r with
   | Ok a s => f a s
   | Err e ra al => Err e ra al
-  | Panic => Panic | Oom => Oom | Hang => Hang | OutOfFuel => OutOfFuel
+  | Panic => Panic | Oom => Oom | OutOfFuel => OutOfFuel
   end.
 
-Record cfg := { budget : N; hang_bound : N }.
+Record cfg := { budget : N }.
 Definition max_alloc : N := 281474976710656.   (* 2^48: runtime maxAlloc on linux/amd64 *)
 
 (* remain after setError's discardAll *)
@@ -180,8 +180,7 @@ Definition fail {A} (e : derr) (s : dstate) : res A := Err e (after_err s) s.(d_
    so that no wire-controlled number is ever converted to a unary nat. *)
 Definition read_z (k : Z) (s : dstate) : res (list N) :=
   if (k <=? 0)%Z then Ok [] s
-  else if (s.(d_remain) =? 0)%Z then Err EEof 0 s.(d_alloc)
-  else if (s.(d_remain) <? 0)%Z then Panic                      (* b[:d.remain] *)
+  else if (s.(d_remain) <=? 0)%Z then Err EEof s.(d_remain) s.(d_alloc)   (* d.Read: remain <= 0 => io.EOF *)
   else
     let m := Z.min k s.(d_remain) in
     if (Z.of_nat (length s.(d_in)) <? m)%Z then
@@ -202,9 +201,11 @@ Definition alloc (c : cfg) (n : Z) (esize : N) (s : dstate) : res unit :=
        else if (c.(budget) <? s.(d_alloc) + bytes)%N then Oom
        else Ok tt {| d_in := s.(d_in); d_remain := s.(d_remain); d_alloc := s.(d_alloc) + bytes |}.
 
-(* d.read(n): make([]byte, n) first, then ReadFull *)
+(* d.read(n): a length that is negative or exceeds what remains of the frame is
+   rejected before anything is allocated; then make([]byte, n) and ReadFull *)
 Definition read_alloc (c : cfg) (n : Z) (s : dstate) : res (list N) :=
-  bind (alloc c n 1 s) (fun _ s => read_z n s).
+  if (n <? 0)%Z || (s.(d_remain) <? n)%Z then fail EEof s
+  else bind (alloc c n 1 s) (fun _ s => read_z n s).
 
 Definition read_int (w : nat) (s : dstate) : res Z :=
   bind (read_n w s) (fun bs s => Ok (get_bes w bs) s).
@@ -261,10 +262,8 @@ Fixpoint elems_loop (dec : dstate -> res value) (fuel : list N) (n : N) (s : dst
          match dec s with
          | Ok v s' =>
              bind (elems_loop dec fuel' (n - 1) s') (fun r s'' => Ok (v :: fst r, snd r) s'')
-         | Err e ra al =>
-             (* the loop keeps spinning while d.remain > 0 *)
-             if (0 <? ra)%Z && (c.(hang_bound) <? n - 1)%N then Hang else Err e ra al
-         | Panic => Panic | Oom => Oom | Hang => Hang | OutOfFuel => OutOfFuel
+         | Err e ra al => Err e ra al          (* for i < n && d.remain > 0 && d.err == nil *)
+         | Panic => Panic | Oom => Oom | OutOfFuel => OutOfFuel
          end
        end.
 
@@ -303,10 +302,14 @@ Fixpoint decode (t : ty) (s : dstate) {struct t} : res value :=
           Ok (VArray (Some (fst r)) (snd r)) s)) in
       if flex then
         bind (read_uvarint s) (fun n s =>
-          if (n <? 1)%N then Ok (VArray None 0) s else body (int_of_u64 (n - 1)) s)
+          if (n <? 1)%N then Ok (VArray None 0) s
+          else if (s.(d_remain) <? 0)%Z || (s.(d_remain) <? Z.of_N (n - 1))%Z then fail EEof s
+          else body (Z.of_N (n - 1)) s)
       else
         bind (read_int 4 s) (fun n s =>
-          if (n <? 0)%Z then Ok (VArray None 0) s else body n s)
+          if (n <? 0)%Z then Ok (VArray None 0) s
+          else if (s.(d_remain) <? n)%Z then fail EEof s
+          else body n s)
   | TStruct fields tagged =>
       let regular :=
         (fix go (tl : list ty) (s : dstate) : res (list value) :=
@@ -349,10 +352,8 @@ Fixpoint decode (t : ty) (s : dstate) {struct t} : res value :=
                           end)) in
                       match step with
                       | Ok ts' s' => loop fuel' (n - 1)%Z ts' s'
-                      | Err e ra al =>
-                          (* `for i < n` has no other exit: it spins n-1 more times *)
-                          if (Z.of_N c.(hang_bound) <? n - 1)%Z then Hang else Err e ra al
-                      | Panic => Panic | Oom => Oom | Hang => Hang | OutOfFuel => OutOfFuel
+                      | Err e ra al => Err e ra al      (* for i < n && d.err == nil *)
+                      | Panic => Panic | Oom => Oom | OutOfFuel => OutOfFuel
                       end
                     end) (0%N :: 0%N :: s.(d_in)) n zeros s))
   | TMarker =>
@@ -367,9 +368,8 @@ Fixpoint decode (t : ty) (s : dstate) {struct t} : res value :=
                   | _ :: fuel' =>
                     match skip_header_tags_step s with
                     | Ok _ s' => loop fuel' (n - 1)%Z s'
-                    | Err e ra al =>
-                        if (Z.of_N c.(hang_bound) <? n - 1)%Z then Hang else Err e ra al
-                    | Panic => Panic | Oom => Oom | Hang => Hang | OutOfFuel => OutOfFuel
+                    | Err e ra al => Err e ra al
+                    | Panic => Panic | Oom => Oom | OutOfFuel => OutOfFuel
                     end
                   end) (0%N :: 0%N :: s.(d_in)) (int_of_u64 cnt) s)
   | TRecords _ =>
@@ -388,8 +388,8 @@ Fixpoint header_tags (fuel : list N) (n : Z) (s : dstate) {struct fuel} : res un
        | _ :: fuel' =>
          match skip_header_tags_step s with
          | Ok _ s' => header_tags fuel' (n - 1)%Z s'
-         | Err e ra al => if (Z.of_N c.(hang_bound) <? n - 1)%Z then Hang else Err e ra al
-         | Panic => Panic | Oom => Oom | Hang => Hang | OutOfFuel => OutOfFuel
+         | Err e ra al => Err e ra al          (* for i < taggedCount && d.err == nil *)
+         | Panic => Panic | Oom => Oom | OutOfFuel => OutOfFuel
          end
        end.
 
